@@ -250,7 +250,8 @@ func runCodec(seed uint64, n int, t *Trace) {
 			k2[kb/8] ^= 1 << uint(kb%8)
 			ok = ok && !glow.Verify(k2, msg, s1)
 			ok = ok && !glow.Verify(detKey(seed, 50).Pub, msg, s1) && !glow.Verify(glow.PublicKey{}, msg, s1)
-			ok = ok && !glow.Verify(key.Pub, msg, Malleate(s1)) // the high-s twin of a valid signature
+			ok = ok && !glow.Verify(key.Pub, msg, Malleate(s1))                        // the high-s twin of a valid signature
+			ok = ok && !glow.Verify(key.Pub, msg, glow.Sign(msg, MirrorKey(key.Priv))) // signed with the mirror key n-d
 			t.Count("crypto")
 			t.Line("crypto.check msgbit=%d sigbit=%d keybit=%d => %s", bit, sb, kb, map[bool]string{true: "ok", false: "FAILED"}[ok])
 		}
